@@ -1,11 +1,13 @@
 """C09 - FFT propagation agrees with DFT propagation; scratch space is transparent."""
+from contracts import propagate as _p
+
 META = {
-    'level_text': 'Proof for all field shapes / offsets (1 or 2 fields), wavefront shapes, output shapes, oversampling, per-axis pixel scales and scratch buffers of any size and content: the array propagate_fft hands to the FFT is exactly the total field with its origin sample at index floor(N/2) of the N_r x N_c grid and zero elsewhere - the same array with and without a scratch buffer, whatever the buffer held before; the grid is N_k = round(lambda z os/(dx_k du_k)); NotImplementedError is raised exactly when a field carries tilt, ValueError exactly when a requested shape exceeds N/oversample or a scratch dimension is smaller than N (so a buffer of exactly scratch_shape is accepted); metadata (reported wavelength, focal length, du/oversample, shape, ptype, centred output field); nothing but the scratch buffer is written. alpha at the reported wavelength is 1/N_k on both axes when dx_r du_r = dx_c du_c (the anisotropic case is a recorded known finding). The identity of the centred FFT (_fft2) with the unitary DFT at alpha = 1/N, and the end-to-end FFT = DFT comparison, are bounded native stand-ins.',
+    'level_text': 'scratch_shape on the real code (scalar and per-axis sampling, one or several wavelengths) returns, per axis, the FFT grid of one of the given wavelengths that is at least the grid of each of them, and the grid round(lambda z os/(dx du)) is monotone in lambda: a buffer of exactly the advertised shape is accepted for every wavelength of the band. Proof for all field shapes / offsets (1 or 2 fields), wavefront shapes, output shapes, oversampling, per-axis pixel scales and scratch buffers of any size and content: the array propagate_fft hands to the FFT is exactly the total field with its origin sample at index floor(N/2) of the N_r x N_c grid and zero elsewhere - the same array with and without a scratch buffer, whatever the buffer held before; the grid is N_k = round(lambda z os/(dx_k du_k)); NotImplementedError is raised exactly when a field carries tilt, ValueError exactly when a requested shape exceeds N/oversample or a scratch dimension is smaller than N (so a buffer of exactly scratch_shape is accepted); metadata (reported wavelength, focal length, du/oversample, shape, ptype, centred output field); nothing but the scratch buffer is written. alpha at the reported wavelength is 1/N_k on both axes when dx_r du_r = dx_c du_c (the anisotropic case is a recorded known finding). The identity of the centred FFT (_fft2) with the unitary DFT at alpha = 1/N, and the end-to-end FFT = DFT comparison, are bounded native stand-ins.',
     'level_note': '_fft2 (numpy.fft) is abstract in the proof: bounded stand-in for all grids up to 16x16 (thorough: 40). insert / pad / Wavefront.field through their contracts (C06, C20, C07). Wavefront class invariant assumed: every field lies inside the centred array of Wavefront.shape (it is what Plane.multiply and the propagators produce). A2 reals.',
 }
 FUNCTIONS = ['lentil.propagate._fft_shape', 'lentil.propagate.propagate_fft#no-scratch', 'lentil.propagate.propagate_fft#scratch',
-             'lentil.util.pad', 'lentil.field.insert#array', 'lentil.wavefront.Wavefront.field#2']
-LEMMAS = []
+             'lentil.util.pad', 'lentil.field.insert#array', 'lentil.wavefront.Wavefront.field#2'] + list(_p.SCRATCH)
+LEMMAS = list(_p.C09_LEMMAS)
 SHARDS = {'lentil.field.insert#array': 3}
 
 
